@@ -68,8 +68,11 @@ Bitmap::Bitmap(const Bitmap &other)
 
 Bitmap &Bitmap::operator=(const Bitmap &other)
 {
-    d->free();
+    // Copy into the new buffer before releasing the old one - the source
+    // may be this very bitmap
+    quint8 *oldData = d->data;
     d->fromData(other.d->length, other.d->data);
+    delete[] oldData;
     return *this;
 }
 
@@ -103,6 +106,9 @@ const quint8 *Bitmap::data() const
 
 void Bitmap::setData(quint8 length, const quint8 *data)
 {
-    d->free();
+    // Copy into the new buffer before releasing the old one - the source
+    // may point into this bitmap's own data
+    quint8 *oldData = d->data;
     d->fromData(length, data);
+    delete[] oldData;
 }
